@@ -82,4 +82,20 @@ theorem step0_ok : ∃ sb', addRelevantMinedB {} (fun bs => bs) trB0 ⟨5, h32 9
   refine ⟨_, rfl, ?_⟩
   decide
 
+/-- the run hypotheses of Rollback / AddRelevantTx hold on the empty database -/
+theorem rollbackOut_empty : RollbackOut R0 {} 1 := by
+  intro acc h
+  have : acc = { bs := {}, bals := fetchAllBalB [] } := by
+    have e : (List.range (syncedToOf ({} : BStore).sync + 1 - 1)).map (fun k => syncedToOf ({} : BStore).sync - k) = [] := by decide
+    rw [e] at h
+    exact (Except.ok.inj h).symm
+  subst this
+  refine ⟨?_, ?_, ?_⟩
+  · intro e he; simp [fetchAllBalB] at he
+  · intro o ho; simp at ho
+  · intro x hx; simp at hx
+
+theorem blockRoom_empty (E : Env) (h : Nat) : BlockRoom (absStore E {}) h := by
+  intro bh txs hg; cases hg
+
 end MW.LedBytes.Ex
